@@ -6,7 +6,7 @@
    fuel of the model always suffices, the parallel main loop never blocks for ever) is NOT proved:
    it is covered by the correspondence (all digraphs <= 3 tasks x all runners, sampled beyond) and by
    the oracle on implementation runs (exact hang detection by the deterministic scheduler). *)
-From DoitV Require Import Base Dispatch Runner DispatchP DispatchInv RunnerTr RunnerP CycleP.
+From DoitV Require Import Base Dispatch Runner DispatchP DispatchInv RunnerTr RunnerP CycleP AncP.
 Open Scope N_scope.
 
 (* a task lying on a dependency cycle through task_dep (explicit, wild-card, implicit file
@@ -57,6 +57,21 @@ Proof.
       * right. exact E.
 Qed.
 Print Assumptions C09_exit_code_3_is_cycle_diagnostic.
+
+(* no false alarm: when a serial run raises the "Cyclic/Invalid task dependency" error (a task found among
+   the ancestors of the node that asks for it) the task graph really has a cycle through effective
+   dependencies -- declared task_dep / implicit / calc_dep / setup edges and everything calc_dep tasks
+   returned [eff_dep] -- whatever the table, selection, flags, set-order oracles and fuel.
+   (Invariant of Proofs/AncP.v: ExecNode.ancestors is a chain of effective dependencies ending at the
+   node; a node's dependency lists only contain effective dependencies of its task.)
+   NOT PROVED: the same for the other diagnostic ("hold on" with nothing running, EHoldError), and that
+   an acyclic graph never deadlocks -- correspondence + oracle only. *)
+Theorem C09_cycle_error_never_false_serial :
+  forall tasks wake_rank calc_rank continue_ always fuel selection p,
+    In (ECycleError p) (fst (run_serial tasks wake_rank calc_rank continue_ always fuel selection)) ->
+    exists k, reach tasks k k.
+Proof. exact serial_cycle_error_is_real. Qed.
+Print Assumptions C09_cycle_error_never_false_serial.
 
 (* non-vacuity: a cycle that is not on one ancestor chain (a -> [b, c], b -> [c], c -> [b]) is
    diagnosed through the hold-on path, nothing on it runs *)
